@@ -907,6 +907,9 @@ fn main() {
         // read_exact across blocks that asks for more than the stream holds (with and without the EOF
         // marker): UnexpectedEof like the single-threaded reader, never a short Ok
         cases.push(make_case(&[3, 5, 2], true, Corrupt::None, vec![ReadExact(2), ReadExact(9), Read(1)]));
+        // a read_exact that starts mid-block and spans three short blocks, all of it present
+        cases.push(make_case(&[3, 5, 2], true, Corrupt::None, vec![ReadExact(2), ReadExact(8), Read(1)]));
+        cases.push(make_case(&[3, 1, 1, 4], true, Corrupt::None, vec![ReadExact(1), ReadExact(7), ReadExact(1)]));
         cases.push(make_case(&[3, 5], false, Corrupt::None, vec![ReadExact(4), ReadExact(5), Read(1)]));
         // a member with the largest uncompressed size the format allows (65536 bytes; other tools write it,
         // noodles' writers stage at most 65495): seeks into it, to its last byte and past it
